@@ -1,0 +1,67 @@
+//go:build verif
+
+package context
+
+// Contracts for govc (contract-based deductive verification; see /verif/DESIGN.md).
+// This file holds only comments and is compiled only with -tags verif.
+//
+// C20, the "never earlier" half (DESIGN.md §6 C20, §3.4): the watcher goroutine calls cancel() only when every
+// member tracked at its last look at the pool has ended, or Cancel was called — for all interleavings of
+// lock-respecting goroutines. chdone[c] is the monotone ghost "channel c is closed" (channels are never
+// reopened, so a positive fact stays true whatever other goroutines do). The rely of p.lock is what every
+// writer section (Add, Cancel) is proved to guarantee and what the watcher assumes while it has dropped the
+// read lock: the member list only grows, until Cancel empties it for good.
+// Eventual cancellation and the termination of the watcher are liveness and are not covered.
+
+//@ ghost var chdone [int]bool
+
+//@ type Pool
+//@   lock lock protects pool
+//@   lockinv lock [C20.inv.cancelled] chdone[self.closed] ==> self.pool == nil
+//@   rely lock [C20.rely] (chdone[self.closed] && self.pool == nil) || (len(old(self.pool)) <= len(self.pool) && (forall j :: 0 <= j && j < len(old(self.pool)) ==> self.pool[j] == old(self.pool[j])))
+
+//@ func NewPool$1
+//@   tags C20
+//@   opt locks=release
+//@   requires p != nil && heldr(p.lock)
+//@   requires chdone[p.closed] ==> p.pool == nil
+//@   loop 0 invariant p == old(p) && heldr(p.lock) && 0 <= i
+//@   loop 0 invariant [C20.watch.inv] chdone[p.closed] || (i <= len(p.pool) && (forall j :: 0 <= j && j < i ==> chdone[p.pool[j]]))
+//@   at select#0 assume (res0 == 0 ==> chdone[ch]) && (res0 == 1 ==> chdone[p.closed])
+//@   at before call RUnlock#0 label E
+//@   at before call CancelFunc#0 assert [C20.watch.notearly] chdone[p.closed] || (forall j :: 0 <= j && j < len(at(E, p.pool)) ==> chdone[at(E, p.pool[j])])
+//@   at before call CancelFunc#0 assert [C20.watch.unlocked] !held(p.lock)
+
+//@ func (*Pool).Add
+//@   tags C20
+//@   requires p != nil && p.Context != nil && ctx != nil
+//@   ensures result == p
+//@   ensures [C20.add.ignored] at(L, chdone[p.closed]) ==> at(U, p.pool) == at(L, p.pool)
+//@   ensures [C20.add.grow] len(at(U, p.pool)) == len(at(L, p.pool)) || len(at(U, p.pool)) == len(at(L, p.pool)) + 1
+//@   at select#0 assume chdone[p.closed] ==> res0 != -1
+//@   at call Lock#0 label L
+//@   at before call Unlock#0 label U
+
+//@ func (*Pool).Cancel
+//@   tags C20
+//@   requires p != nil
+//@   ensures [C20.cancel] at(U, p.pool) == nil && (at(L, p.pool) != nil ==> chdone[p.closed])
+//@   at close#0 ghost chdone = update(chdone, p.closed, true)
+//@   at call Lock#0 label L
+//@   at before call Unlock#0 label U
+
+//@ func (*Pool).Size
+//@   tags C20
+//@   requires p != nil
+//@   ensures [C20.size] result == len(at(L, p.pool))
+//@   at call RLock#0 label L
+
+//@ func NewPool
+//@   tags C20 C07
+//@   opt locks=transfer
+//@   opt go=ignore
+//@   requires forall j :: 0 <= j && j < len(ctx) ==> ctx[j] != nil
+//@   ensures [C20.new] result != nil && fresh(result) && heldr(result.lock) && result.pool != nil && !chdone[result.closed]
+//@   ensures [C20.new.members] len(result.pool) <= len(ctx)
+//@   loop 0 invariant p != nil && fresh(p) && p.pool != nil && fresh(p.pool) && len(p.pool) <= rangeindex + 1 && len(p.pool) <= cap(p.pool) && -1 <= rangeindex && rangeindex < len(ctx) && !chdone[p.closed]
+//@   at store closed#0 ghost chdone = update(chdone, arg0, false)
